@@ -186,7 +186,9 @@ func (inst *InstShuffleVector) Type() types.Type {
 		if !ok {
 			panic(fmt.Errorf("invalid vector type; expected *types.VectorType, got %T", inst.Mask.Type()))
 		}
-		inst.Typ = types.NewVector(maskType.Len, xType.ElemType)
+		typ := types.NewVector(maskType.Len, xType.ElemType)
+		typ.Scalable = maskType.Scalable
+		inst.Typ = typ
 	}
 	return inst.Typ
 }
